@@ -513,7 +513,7 @@ def _run_impl(case):
     if case['te']:
         env['HTTP_TRANSFER_ENCODING'] = ''.join(chr(c) for c in case['te'])
     status = []
-    # per-request alarm (F.call_guarded: a BaseException nothing in the framework swallows; 2 s, 0.25 s after 3 hangs)
+    # per-request alarm (F.call_guarded: a BaseException nothing in the framework swallows; 1.5 s, 0.1 s after 3 hangs)
     done, _ = F.call_guarded(lambda: b''.join(app(env, lambda s, h, e=None: status.append(s))))
     if not done:
         return {'hang': True}
@@ -694,6 +694,8 @@ def shrink(case):
         if not case['chunked'] and cl_int(case) == n:
             c['cl_raw'] = cps(str(len(c['data'])))
         yield c
+    if F._HANGS['n'] > F.HANG_K:
+        return                      # a tree that hangs on many inputs: coarse shrinking only (every candidate costs an alarm)
     for i in range(n):
         c = dict(case, data=d[:i] + d[i + 1:])
         if not case['chunked'] and cl_int(case) == n:
